@@ -32,7 +32,7 @@ func init() {
 	register(&run.Check{
 		ID:    "C08",
 		Level: "model_checking",
-		Rule: common + "Oracle per transition: the output delta of a text token contains its marker iff no ancestor on the input stack is a disallowed skip-content element or script/style (ancestors that are in the skip set but allowed are don't-care); markup fed inside such a region produces no output (apart from the spaces of AddSpaceWhenStrippingTag); outside it a text token yields exactly its escaped form once. " +
+		Rule: common + "Oracle per transition: the output delta of a text token contains its marker iff no ancestor on the input stack is a disallowed skip-content element or script/style (ancestors that are in the skip set but allowed are don't-care); markup fed inside such a region produces no output (apart from the spaces of AddSpaceWhenStrippingTag); outside it a text token yields exactly its escaped form once. Depth probes: 4 ... 65537 nested skip-content elements (both sides of 128, 256, 2^15, 2^16) with a marker between the closers, followed by <b>after</b>, give exactly <b>after</b>. " +
 			"non-trivial = transitions taken inside a skipped region.",
 		Assumptions: []string{"if the overlay cannot locate the token loop the search falls back to plain enumeration of W-documents up to 6 tokens and reports exhaustive:false"},
 		QuickBudget: 50, ThoroughBudget: 800,
@@ -43,7 +43,7 @@ func init() {
 		ID:    "C09",
 		Level: "model_checking",
 		Rule: common + "Oracle: the stack-balance monitor over the re-tokenised output never sees a stray or mismatched end tag, and in every state with an empty input stack (a complete well-nested document) no output element is left open. " +
-			"Two-call layer: after the same policy sanitised any fragment sequence of length <=3 (well nested or not), six well-nested documents still come out balanced. non-trivial = transitions that close an input element.",
+			"Two-call layer: after the same policy sanitised any fragment sequence of length <=3 (well nested or not), six well-nested documents still come out balanced. Raw-text layer: every removed raw-text element around tag-shaped text, inside and next to kept elements, leaves the output balanced. non-trivial = transitions that close an input element.",
 		Assumptions: []string{"void elements follow the HTML list; self-closing tokens are leaves", "if the overlay cannot locate the token loop the search falls back to plain enumeration of W-documents up to 6 tokens and reports exhaustive:false"},
 		QuickBudget: 50, ThoroughBudget: 800,
 		Run:    func(c *run.Ctx) { runE2(c, "C09") },
